@@ -1,3 +1,65 @@
 import Mrpro.Model.Fourier
+import Mrpro.Lemmas.Basic
+import Mrpro.Lemmas.FourierL
+/-! # C03 — Fourier operators compute the MR encoding model at the trajectory points
+
+`wI : ℤ → K` is the twiddle function `t ↦ e^{-2πi t/N}`; the only facts used are the ones stated as
+hypotheses (periodicity mod N; for unitarity: multiplicativity and the geometric sum), so the
+theorems hold for the complex exponential and for every other primitive root. -/
 namespace C03
+open M
+variable {K : Type} [CommRing K] [StarRing K]
+
+/-- `fftshift ∘ fft ∘ ifftshift` *is* the DFT with both index origins at `N/2`, for even and odd `N` -/
+theorem centredDft_eq_spec (n : Nat) (c : K) (wI : Int → K)
+    (hper : ∀ a b : Int, a % (n : Int) = b % (n : Int) → wI a = wI b) (x : Nat → K) (k : Nat) (hk : k < n) :
+    centredDft n c (fun t => wI t) x k = centredDftSpec n c wI x k :=
+  M.centredDft_eq_spec n c wI hper x k hk
+
+/-- centred padding/cropping followed by the centred DFT of the encoding size is the encoding sum
+over the *reconstruction* grid with image coordinates `r − N_rec/2` and k-space coordinates
+`k − N_enc/2` — the centre-voxel clause of the property — for either parity of either size.
+(When cropping, voxels outside the encoded field of view are dropped.) -/
+theorem padded_dft_eq_encoding (nrec nenc : Nat) (c : K) (wI : Int → K) (x : Nat → K) (k : Nat) :
+    centredDftSpec nenc c wI (padCrop nrec nenc x) k
+      = c * sumTo nrec (fun r =>
+          if 0 ≤ (r : Int) + padShift nrec nenc ∧ (r : Int) + padShift nrec nenc < nenc
+          then wI (((k : Int) - (nenc / 2 : Nat)) * ((r : Int) - (nrec / 2 : Nat))) * x r else 0) :=
+  M.padded_dft_eq_encoding nrec nenc c wI x k
+
+/-- the Cartesian path `sampling ∘ FFT ∘ pad` evaluated at a sample with integer k-space coordinate `κ`
+inside the encoding matrix equals the encoding model `c·∑_r x[r]·e(κ·(r − N_rec/2))` (padding case). -/
+theorem cartesian_path_eq_nudft (nrec nenc : Nat) (h : nrec ≤ nenc) (c : K) (wI : Int → K)
+    (hper : ∀ a b : Int, a % (nenc : Int) = b % (nenc : Int) → wI a = wI b)
+    (x : Nat → K) (κ : Int) (j : Nat) (hj : axisIdx nenc κ = some j) :
+    centredDft nenc c (fun t => wI t) (padCrop nrec nenc x) j
+      = c * sumTo nrec (fun r => wI (κ * ((r : Int) - (nrec / 2 : Nat))) * x r) :=
+  M.cartesian_path_eq_nudft nrec nenc h c wI hper x κ j hj
+
+/-- without cropping the pure FFT operator is unitary: `adjoint (forward x) = x`, given the defining
+properties of the twiddles (`c₁ = c₂ = 1/√n` for norm='ortho') -/
+theorem centredDft_unitary (n : Nat) (c₁ c₂ : K) (hc : c₁ * c₂ * (n : K) = 1) (wI : Int → K)
+    (hper : ∀ a b : Int, a % (n : Int) = b % (n : Int) → wI a = wI b)
+    (hmul : ∀ a b : Int, wI (a + b) = wI a * wI b) (hstar : ∀ a : Int, star (wI a) = wI (-a))
+    (hone : wI 0 = 1)
+    (hgeom : ∀ d : Int, d % (n : Int) ≠ 0 → (Finset.range n).sum (fun k => wI ((k : Int) * d)) = 0)
+    (x : Nat → K) (r : Nat) (hr : r < n) :
+    centredIdft n c₂ (fun t => wI t) (centredDft n c₁ (fun t => wI t) x) r = x r :=
+  M.centredDft_unitary n c₁ c₂ hc wI hper hmul hstar hone hgeom x r hr
+
+/-- non-vacuity of `centredDft_unitary`: `n = 2`, `ω = −1` over ℚ (with the constant split 1 · 1/2) -/
+example : ∃ (wI : Int → ℚ), (∀ a b : Int, a % (2 : Int) = b % (2 : Int) → wI a = wI b) ∧
+    (∀ a b : Int, wI (a + b) = wI a * wI b) ∧ wI 0 = 1 ∧ wI 1 = -1 ∧
+    (∀ d : Int, d % (2 : Int) ≠ 0 → (Finset.range 2).sum (fun k => wI ((k : Int) * d)) = 0) :=
+  M.unitary_example
+
+/-- every axis gets exactly one treatment, a single-valued axis is never transformed, and the axes
+handed to the FFT are exactly those the sampling operator re-orders -/
+theorem dispatch_partition (s g : Bool) :
+    (treatment s g = .ignore ↔ s = true) ∧ (treatment s g = .fft ↔ (s = false ∧ g = true)) ∧
+    (treatment s g = .nufft ↔ (s = false ∧ g = false)) := by
+  cases s <;> cases g <;> decide
+theorem fft_iff_sampling_reorders (t : TrajComp) (tol : Rat) :
+    t.treatment tol = .fft ↔ t.isOnGridOnly tol = true := M.fft_iff_sampling_reorders t tol
+
 end C03
